@@ -591,9 +591,23 @@ func (p *jsonPathParser) pushCompareNE(
 	p.push(&syntaxLogicalNot{query: p.pop().(syntaxQuery)})
 }
 
+// needsOperandSwap reports whether the operands of a comparison have to be
+// exchanged so that the single-valued operand (a literal or a `$` path) ends
+// up on the right-hand side, a literal taking precedence over a `$` path.
+// It is never true for both orders of the same pair.
+func (p *jsonPathParser) needsOperandSwap(
+	leftParam, rightParam *syntaxBasicCompareParameter) bool {
+	_, leftIsValue := leftParam.param.(*syntaxQueryParamLiteral)
+	_, rightIsValue := rightParam.param.(*syntaxQueryParamLiteral)
+	if leftIsValue != rightIsValue {
+		return leftIsValue
+	}
+	return leftParam.isLiteral && !rightParam.isLiteral
+}
+
 func (p *jsonPathParser) pushCompareGE(
 	leftParam, rightParam *syntaxBasicCompareParameter) {
-	if leftParam.isLiteral {
+	if p.needsOperandSwap(leftParam, rightParam) {
 		p.pushCompareLE(rightParam, leftParam)
 		return
 	}
@@ -602,7 +616,7 @@ func (p *jsonPathParser) pushCompareGE(
 
 func (p *jsonPathParser) pushCompareGT(
 	leftParam, rightParam *syntaxBasicCompareParameter) {
-	if leftParam.isLiteral {
+	if p.needsOperandSwap(leftParam, rightParam) {
 		p.pushCompareLT(rightParam, leftParam)
 		return
 	}
@@ -611,7 +625,7 @@ func (p *jsonPathParser) pushCompareGT(
 
 func (p *jsonPathParser) pushCompareLE(
 	leftParam, rightParam *syntaxBasicCompareParameter) {
-	if leftParam.isLiteral {
+	if p.needsOperandSwap(leftParam, rightParam) {
 		p.pushCompareGE(rightParam, leftParam)
 		return
 	}
@@ -620,7 +634,7 @@ func (p *jsonPathParser) pushCompareLE(
 
 func (p *jsonPathParser) pushCompareLT(
 	leftParam, rightParam *syntaxBasicCompareParameter) {
-	if leftParam.isLiteral {
+	if p.needsOperandSwap(leftParam, rightParam) {
 		p.pushCompareGT(rightParam, leftParam)
 		return
 	}
